@@ -36,7 +36,7 @@ LEVEL_TEXT = (
 
 
 def budget(tier):
-    return 4 if tier == "quick" else 80
+    return 6 if tier == "quick" else 100
 
 
 def wall_guard(tier):
